@@ -90,6 +90,12 @@ FixFails(e) ==
   \cup (IF e.haveChain THEN UNION {ChainStepFails(ch[k]) : k \in 1..Len(ch)} ELSE {})
   \cup (IF e.haveChain /\ ~ChainLinked(ch, pair.text) THEN {"C04_ChainLinked"} ELSE {})
   \cup (IF e.haveChain /\ e.css # <<>> /\ ~ResultFromChain(ch, pair.text, e.css) THEN {"C04_ResultFromChain"} ELSE {})
+  \* C06: documented output format for the input's spelling; both read-backs denote the judged colour
+  \* (e.ref = the result of the same call on the same parsed colours given as int tuples, when recorded)
+  \cup (IF OutFormat(pair.spell) # "other" /\ e.shape # OutFormat(pair.spell) THEN {"C06_OutFormat"} ELSE {})
+  \cup (IF e.ref # <<>> /\ e.css # e.ref THEN {"C06_CssReadsBackJudged"} ELSE {})
+  \cup (IF e.ref # <<>> /\ e.lib # e.ref THEN {"C06_LibReadsBackJudged"} ELSE {})
+  \cup (IF e.css # e.lib THEN {"C06_ReadbacksAgree"} ELSE {})
   \* C16, against the runs seen earlier in this behaviour
   \cup UNION { (IF p.vr = e.vr /\ p.mode = 1 /\ e.mode = 2 /\ ~Mode2CoversMode1P(p.ok, p.css = e.css, e.ok) THEN {"C16_Mode2CoversMode1"} ELSE {})
                \cup (IF p.vr = e.vr /\ p.mode = 2 /\ e.mode = 1 /\ ~Mode2CoversMode1P(e.ok, p.css = e.css, p.ok) THEN {"C16_Mode2CoversMode1"} ELSE {})
